@@ -50,13 +50,16 @@ type Outcome struct {
 	Deadlock  bool     // no enabled thread, no pending timer, threads unfinished
 	Blocked   []string // names (with wait labels) of the threads blocked at deadlock
 	StepLimit bool
-	Hung      bool // real-time watchdog: a goroutine is stuck outside the scheduler (harness defect, never an oracle)
-	Steps     int
-	Switches  int
-	Threads   int
-	Trace     []Step
-	Spent     int
-	VirtualNs int64
+	// Unsupported: the code under test used a construct the scheduler does not model (e.g. a rendezvous on an unbuffered
+	// channel). The execution is abandoned; the check must end INCONCLUSIVE, never with a verdict.
+	Unsupported string
+	Hung        bool // real-time watchdog: a goroutine is stuck outside the scheduler (harness defect, never an oracle)
+	Steps       int
+	Switches    int
+	Threads     int
+	Trace       []Step
+	Spent       int
+	VirtualNs   int64
 	// ChoiceSteps[i] is the number of steps taken when the i-th choice was made (lets the explorer tell the steps an
 	// execution shares with the prefix it replays from the steps that are new).
 	ChoiceSteps []int
@@ -128,6 +131,10 @@ func Run(cfg Config, body func()) Outcome {
 	vtime.SleepHook = sleep
 	vtime.OnTimer = func() { Point("timer") }
 	vtime.OnFire = func() { sc.gen++ }
+	vtime.GoHook = func(f func()) {
+		sc.gen++
+		sc.newThread(fmt.Sprintf("timerfunc%d", len(sc.threads)), f, true) // becomes runnable; started when first picked
+	}
 	t := sc.newThread("main", body, false)
 	sc.cur = t
 	t.resume <- struct{}{}
@@ -167,6 +174,7 @@ func Run(cfg Config, body func()) Outcome {
 	vtime.SleepHook = nil
 	vtime.OnTimer = nil
 	vtime.OnFire = nil
+	vtime.GoHook = nil
 	return sc.out
 }
 
@@ -200,6 +208,7 @@ func (sc *sched) newThread(name string, f func(), system bool) *thread {
 			// normal end of thread: hand over
 			t.state = stDone
 			sc.live--
+			sc.gen++ // a thread's deferred calls often cancel contexts / close channels others are waiting on
 			sc.step(t, "exit")
 			if sc.eagerFor == t { // ended before its first scheduling operation
 				sp := sc.eagerBack
@@ -539,6 +548,80 @@ func Spawn(name string, f func(), system bool) {
 	sc.cur = t
 	t.resume <- struct{}{}
 	sc.park(me)
+}
+
+// Unsupported abandons the execution because the code under test did something the scheduler does not model.
+func Unsupported(what string) {
+	sc := s
+	if sc == nil {
+		panic("vsched: unsupported without an execution: " + what)
+	}
+	if sc.aborted {
+		runtime.Goexit()
+	}
+	if sc.out.Unsupported == "" {
+		sc.out.Unsupported = what
+	}
+	t := sc.me()
+	sc.abort()
+	sc.park(t)
+}
+
+// Recv is a channel receive as a scheduling operation (the transformer rewrites `<-ch`, `v := <-ch` to it): the thread
+// is disabled until a value (or close) is available. Only buffered channels are modelled.
+func Recv[T any](ch <-chan T) T {
+	v, _ := Recv2(ch)
+	return v
+}
+
+// Recv2 is `v, ok := <-ch`.
+func Recv2[T any](ch <-chan T) (T, bool) {
+	if s == nil {
+		v, ok := <-ch
+		return v, ok
+	}
+	Point("chan.recv")
+	for {
+		select {
+		case v, ok := <-ch:
+			Signal()
+			return v, ok
+		default:
+		}
+		// (an unbuffered channel that only ever gets closed - a context's Done channel - is handled by this loop as well;
+		// a rendezvous with a sending thread is refused on the sender's side)
+		WaitExternal()
+	}
+}
+
+// Send is `ch <- v`.
+func Send[T any](ch chan<- T, v T) {
+	if s == nil {
+		ch <- v
+		return
+	}
+	Point("chan.send")
+	for {
+		select {
+		case ch <- v:
+			Signal()
+			return
+		default:
+		}
+		if cap(ch) == 0 {
+			Unsupported("send on an unbuffered channel (rendezvous between goroutines is not modelled)")
+		}
+		WaitExternal()
+	}
+}
+
+// Close is close(ch) plus the wake-up of threads waiting on it.
+func Close[T any](ch chan<- T) {
+	if s != nil {
+		Point("chan.close")
+	}
+	close(ch)
+	Signal()
 }
 
 // Signal tells the scheduler that something a WaitExternal caller may be waiting for has happened (a context was
